@@ -455,7 +455,10 @@ PROPS = {
                 "several bookings, other directives and comments mentioning the placeholder, odd layouts; placeholder: default, custom, Unicode, macro, empty, not-an-account, equal to a training "
                 "account), scale (sizes on logarithmic ladders: 1-2500 words in the target description, 0-100 % of them unseen in training, distinct or repeated, 0-200/2000 training "
                 "transactions with descriptions of up to hundreds of words, vocabulary 3-3000, 2-40 accounts; 8/150 of these also through the command), "
-                "malformed (byte mutations of target/training), cli (subprocess: stdout, --inplace, training file = target file, missing include, 5/20 repeated runs with KNUT_VERIF_SEED). "
+                "malformed (byte mutations of target/training), cli (subprocess: stdout, --inplace, training file = target file, missing include, 5/20 repeated runs with KNUT_VERIF_SEED), "
+                "bigfile (5/20 training journals with ONE file of 1000-65000 directives - around 1024/2048/4096/8192/16384/32768/65536 +-1 and in between - made of near-tied accounts "
+                "in six layouts, through the command under GOMAXPROCS 1/2/16 and KNUT_VERIF_SEED schedules: same output on every run, as the library code, as the model, and as the same "
+                "directives cut into included files of 25-150). "
                 "class = (outcome, placeholder kind, number of placeholder fields per side, replaced/kept, sizes, generator kinds).",
         "assumptions": ["scores closer than 1e-9 relative are treated as ties the float evaluation may break either way",
                         "every score the code computes is finite (logarithms of positive ratios), so the first candidate always beats -Inf"],
